@@ -1976,8 +1976,10 @@ class Interp:
     # ----------------------------------------------------------------- contracts at call sites
     def call_by_contract(self, func, contract, args, kwargs, fr, self_cls, recursive=False):
         locals_ = self.bind_args(func, args, kwargs, fr)
+        # the contract's own parameter names (an abstract base may declare (self, *args) or other names): positional
+        for name_, v_ in zip(contract.param_order, args):
+            locals_.setdefault(name_, v_)
         if func.node.args.vararg is not None:
-            # abstract base method declared as (self, *args, **kwargs): bind by the contract's own signature
             for name_, v_ in zip(contract.param_order, args):
                 locals_[name_] = v_
         cf = Frame(func, dict(locals_), self.reg.spec_module_for(contract), func.cls)
